@@ -239,3 +239,52 @@ package plan
 //@   assert at call GetDatabaseNameByTableIndex#0: arg1 == result.indexes[result.currentIndex - 1]
 //@   assert at call GetSlice#0: arg1 == sliceIdxOf(arg0, result.indexes[result.currentIndex - 1])
 //@   ensures case everyCopy: ret1 == nil ==> rendered == len(result.indexes) && result.currentIndex == 0 && result.indexes == old(result.indexes)
+
+// ---------------------------------------------------------------- C03 every inserted row is stored once, where lookups find it
+// Batch INSERT / REPLACE: the rows are split into one statement per target table. rowPlace(p, j) is the table a point query on
+// row j's sharding value is routed to (the same place() the C01 read kernel uses). Two ghost functions name the witnesses:
+// slot[idx] = the ordinal of the statement built for table idx, rowPos[j] = the position of row j inside its statement.
+//@ ghost rowPos map[int]int
+//@ ghost slot map[int]int
+//@ ghost pl map[int]int
+//@ ghost prevRow map[int]int
+//@ ghost lastRow map[int]int
+//@ pure ruleOf(p *InsertPlan) router.Rule = p.tableRules[p.table]
+//@ pure rowLit(p *InsertPlan, j int) bool = typeis(p.stmt.Lists[j][p.shardingColumnIndex], *driver.ValueExpr)
+//@ pure rowVal(p *InsertPlan, j int) interface{} = valueOf(unbox(p.stmt.Lists[j][p.shardingColumnIndex], *driver.ValueExpr))
+//@ pure rowPlace(p *InsertPlan, j int) int = place(shardOf(ruleOf(p)), rowVal(p, j))
+//@ pure rowOK(p *InsertPlan, j int) bool = rowLit(p, j) && rowVal(p, j) != nil && placeOK(shardOf(ruleOf(p)), rowVal(p, j))
+//@ pure stmtAt(p *InsertPlan, m int) *ast.InsertStmt = unbox(p.rewriteStmts[m], *ast.InsertStmt)
+//@ property C03: handleInsertValues
+//@ func handleInsertValues
+//@   requires p != nil && p.stmt != nil && p.result != nil && p.StmtInfo != nil && sorted(p.result.indexes) && len(p.rewriteStmts) == 0
+//@   requires has(p.tableRules, p.table) && ruleOf(p) != nil
+//@   requires 0 <= p.shardingColumnIndex
+//@   requires case setWide:  p.isAssignmentMode ==> p.shardingColumnIndex < len(p.stmt.Setlist) && p.stmt.Setlist[p.shardingColumnIndex] != nil
+//@   requires case rowsWide: forall(j, 0, len(p.stmt.Lists), p.shardingColumnIndex < len(p.stmt.Lists[j]))
+//@   assigns p.rewriteStmts, p.result.indexes, rowPos, slot, pl, prevRow, lastRow
+//@   ghost-update after call (router.Rule).FindTableIndex#0: pl[rangeindex + 1] = ret0, rowPos[rangeindex + 1] = ite(has(newStmtMap, ret0), len(newStmtMap[ret0].Lists), 0), slot[ret0] = ite(has(newStmtMap, ret0), slot[ret0], len(routeIdxs)), prevRow[rangeindex + 1] = ite(has(newStmtMap, ret0), lastRow[ret0], -1), lastRow[ret0] = rangeindex + 1
+//@   loop 0 assigns p.rewriteStmts
+//@   loop 0 invariant case shape uses: newStmtMap != nil && fresh(newStmtMap) && (routeIdxs == nil || fresh(routeIdxs)) && len(routeIdxs) == len(p.rewriteStmts)
+//@   loop 0 invariant case accepted uses shape: forall(j, 0, rangeindex + 1, rowOK(p, j) && pl[j] == rowPlace(p, j) && -(1<<32) <= pl[j] && pl[j] <= 1<<32)
+//@   loop 0 invariant case link uses shape, slots:  forall(m, 0, len(routeIdxs), has(newStmtMap, routeIdxs[m]) && typeis(p.rewriteStmts[m], *ast.InsertStmt) && stmtAt(p, m) == newStmtMap[routeIdxs[m]] && slot[routeIdxs[m]] == m && -(1<<32) <= routeIdxs[m] && routeIdxs[m] <= 1<<32)
+//@   loop 0 invariant case slots uses shape, link: forall(idx int, has(newStmtMap, idx) ==> 0 <= slot[idx] && slot[idx] < len(routeIdxs) && routeIdxs[slot[idx]] == idx && newStmtMap[idx] != nil && fresh(newStmtMap[idx]) && fresh(newStmtMap[idx].Lists) && allocated(newStmtMap[idx]) && allocated(newStmtMap[idx].Lists))
+//@   loop 0 invariant case apart uses shape, slots: forall(a int, forall(b int, has(newStmtMap, a) && has(newStmtMap, b) && a != b ==> newStmtMap[a] != newStmtMap[b] && !sameArray(newStmtMap[a].Lists, newStmtMap[b].Lists)))
+//@   loop 0 invariant case rows uses shape, slots, apart, accepted:  forall(j, 0, rangeindex + 1, has(newStmtMap, pl[j]) && 0 <= rowPos[j] && rowPos[j] < len(newStmtMap[pl[j]].Lists) && newStmtMap[pl[j]].Lists[rowPos[j]] == p.stmt.Lists[j])
+//@   loop 0 invariant case once uses shape, rows:  forall(i, 0, rangeindex + 1, forall(j, i + 1, rangeindex + 1, pl[i] == pl[j] ==> rowPos[i] < rowPos[j]))
+//@   loop 0 invariant case chain uses shape, rows, last, slots: forall(j, 0, rangeindex + 1, (prevRow[j] == -1 && rowPos[j] == 0) || (0 <= prevRow[j] && prevRow[j] < j && pl[prevRow[j]] == pl[j] && rowPos[j] == rowPos[prevRow[j]] + 1))
+//@   loop 0 invariant case last uses shape, slots, apart, rows: forall(idx int, has(newStmtMap, idx) ==> 0 <= lastRow[idx] && lastRow[idx] <= rangeindex && pl[lastRow[idx]] == idx && rowPos[lastRow[idx]] == len(newStmtMap[idx].Lists) - 1)
+//@   ensures case paired uses shape:   ret0 == nil && !p.isAssignmentMode ==> len(p.result.indexes) == len(p.rewriteStmts)
+//@   ensures case accepted uses shape, accepted: ret0 == nil && !p.isAssignmentMode ==> forall(j, 0, len(p.stmt.Lists), rowOK(p, j) && pl[j] == rowPlace(p, j))
+//@   ensures case placed uses shape, rows, slots, link, accepted:   ret0 == nil && !p.isAssignmentMode ==> forall(j, 0, len(p.stmt.Lists), 0 <= slot[pl[j]] && slot[pl[j]] < len(p.rewriteStmts)
+//@        && p.result.indexes[slot[pl[j]]] == pl[j] && typeis(p.rewriteStmts[slot[pl[j]]], *ast.InsertStmt)
+//@        && 0 <= rowPos[j] && rowPos[j] < len(stmtAt(p, slot[pl[j]]).Lists) && stmtAt(p, slot[pl[j]]).Lists[rowPos[j]] == p.stmt.Lists[j])
+//@   ensures case once uses shape, once:     ret0 == nil && !p.isAssignmentMode ==> forall(i, 0, len(p.stmt.Lists), forall(j, i + 1, len(p.stmt.Lists), pl[i] == pl[j] ==> rowPos[i] < rowPos[j]))
+//@   ensures case chain uses shape, chain: ret0 == nil && !p.isAssignmentMode ==> forall(j, 0, len(p.stmt.Lists), (prevRow[j] == -1 && rowPos[j] == 0) || (0 <= prevRow[j] && prevRow[j] < j && pl[prevRow[j]] == pl[j] && rowPos[j] == rowPos[prevRow[j]] + 1))
+//@   ensures case last uses shape, last, link, slots: ret0 == nil && !p.isAssignmentMode ==> forall(m, 0, len(p.rewriteStmts), 0 <= lastRow[p.result.indexes[m]] && lastRow[p.result.indexes[m]] < len(p.stmt.Lists) && pl[lastRow[p.result.indexes[m]]] == p.result.indexes[m] && rowPos[lastRow[p.result.indexes[m]]] == len(stmtAt(p, m).Lists) - 1)
+//@   ensures case distinct uses shape, link: ret0 == nil && !p.isAssignmentMode ==> forall(a, 0, len(p.result.indexes), forall(b, a + 1, len(p.result.indexes), p.result.indexes[a] != p.result.indexes[b]))
+//@   ensures case setOne:    ret0 == nil && p.isAssignmentMode ==> len(p.rewriteStmts) == 1 && typeis(p.rewriteStmts[0], *ast.InsertStmt) && stmtAt(p, 0) == p.stmt
+//@   ensures case setRouted: ret0 == nil && p.isAssignmentMode && typeis(p.stmt.Setlist[p.shardingColumnIndex].Expr, *driver.ValueExpr) ==>
+//@        placeOK(shardOf(ruleOf(p)), valueOf(unbox(p.stmt.Setlist[p.shardingColumnIndex].Expr, *driver.ValueExpr))) && valueOf(unbox(p.stmt.Setlist[p.shardingColumnIndex].Expr, *driver.ValueExpr)) != nil
+//@        && forall(x int, mem(p.result.indexes, x) ==> x == place(shardOf(ruleOf(p)), valueOf(unbox(p.stmt.Setlist[p.shardingColumnIndex].Expr, *driver.ValueExpr))) && mem(old(p.result.indexes), x))
+//@   ensures case setOther:  ret0 == nil && p.isAssignmentMode && !typeis(p.stmt.Setlist[p.shardingColumnIndex].Expr, *driver.ValueExpr) ==> p.result.indexes == old(p.result.indexes)
